@@ -188,7 +188,7 @@ pub const LEN_SET: [usize; 13] = [0, 1, 2, 126, 127, 128, 129, 255, 256, 65534, 
 
 pub fn gen_name(rng: &mut Rng, len: usize) -> Vec<u8> {
     match rng.below(6) {
-        0 => (0..len).map(|i| b"http_x_header_name"[i % 18]).collect(),
+        0 => (0..len).map(|i| b"http_x-real_header-name"[i % 23]).collect(),   // HTTP_ prefix with dashes AND underscores behind it
         1 => (0..len).map(|i| b"CONTENT_LENGTH"[i % 14]).collect(),
         2 => { let mut b: Vec<u8> = (0..len).map(|_| rng.range(0x41, 0x7a) as u8).collect(); if len > 2 { let k = rng.usize_below(len); b[k] = *rng.pick(&[0xff, 0xc3, 0xe2, 0x80, 0xf0, 0xed]); } b }   // non-UTF-8 / truncated sequences
         3 => "Ünï-cödé_ß".bytes().cycle().take(len).collect(),
@@ -211,6 +211,12 @@ pub fn gen_pairs(rng: &mut Rng, big: bool) -> Vec<(Vec<u8>, Vec<u8>)> {
             // duplicate / case-variant of an earlier name
             let k = rng.usize_below(ps.len());
             name = ps[k].0.iter().map(|&b| if rng.chance(1, 2) { b.to_ascii_lowercase() } else { b.to_ascii_uppercase() }).collect();
+        }
+        else if !ps.is_empty() && rng.chance(1, 8) {
+            // near-duplicate that must stay DISTINCT: one `-` of an earlier name turned into `_` or the reverse (any case)
+            let k = rng.usize_below(ps.len());
+            let pos: Vec<usize> = ps[k].0.iter().enumerate().filter(|(_, &b)| b == b'-' || b == b'_').map(|(i, _)| i).collect();
+            if !pos.is_empty() { let at = *rng.pick(&pos); name = ps[k].0.clone(); name[at] = if name[at] == b'-' { b'_' } else { b'-' }; if rng.chance(1, 2) { name = name.to_ascii_uppercase(); } }
         }
         ps.push((name, rng.bytes(vl)));
     }
